@@ -234,6 +234,9 @@ func checkC02(c *Check) {
 	}
 	c.Floor("R4", 12)
 
+	// ---- R6 the payment enumeration used by settlement selects exactly the account's own payments (key layout)
+	c.keyLayoutsRule("R6", []string{"x/escrow/keeper"}, 1, 2)
+
 	// ---- R5 SettledAt
 	nset := 0
 	for _, fn := range l.prodFuncs() {
